@@ -57,6 +57,11 @@ def quick(ob):
     g = z3.simplify(ob.goal)
     if z3.is_true(g):
         return VCResult('unsat', 'simplify', 0.0)
+    from .path import has_quantifier
+    if has_quantifier(ob.goal) or any(has_quantifier(c) for c in ob.pc):
+        # the in-process API has been seen to ignore its timeout on quantified string formulas:
+        # such VCs go straight to the child-process solvers, which are killed at the budget
+        return VCResult('unknown', 'z3-api', 0.0, reason='quantified: delegated to child-process solvers')
     s = vc_solver(ob, QUICK_MS)
     r = s.check()
     dt = time.time() - t0
